@@ -234,7 +234,8 @@ func SafeExecute(e Engine, plan interface{}, c *Ctx) (v *Verdict) {
 
 // Shrink is greedy delta debugging over the engine's candidate list; a
 // candidate is kept iff it fails with the same clause.
-func Shrink(e Engine, plan interface{}, clause string, budget int) (interface{}, int) {
+// Shrink: exec (optional) replaces in-process execution of a candidate.
+func Shrink(e Engine, plan interface{}, clause string, budget int, exec func(interface{}) *Verdict) (interface{}, int) {
 	steps := 0
 	cur := plan
 	for budget > 0 {
@@ -244,8 +245,13 @@ func Shrink(e Engine, plan interface{}, clause string, budget int) (interface{},
 				break
 			}
 			budget--
-			c := &Ctx{Stats: NewStats(), Log: NewLog(false), Tier: "shrink"}
-			v := SafeExecute(e, Clone(e, cand), c)
+			var v *Verdict
+			if exec != nil {
+				v = exec(Clone(e, cand))
+			} else {
+				c := &Ctx{Stats: NewStats(), Log: NewLog(false), Tier: "shrink"}
+				v = SafeExecute(e, Clone(e, cand), c)
+			}
 			if v != nil && v.Clause == clause {
 				if v.Narrow != nil {
 					cur = v.Narrow
@@ -277,6 +283,8 @@ type Replay struct {
 	Plan     json.RawMessage `json:"plan"`
 	Original json.RawMessage `json:"original_plan,omitempty"`
 	Trace    []string        `json:"trace,omitempty"`
+	History  *History        `json:"history,omitempty"`
+	Note     string          `json:"note,omitempty"`
 }
 
 func sha256Hex(b []byte) string {
